@@ -158,6 +158,9 @@ impl Debugger {
 
     pub(super) fn increment_instruction_count(&mut self) {
         self.instruction_count += 1;
+        // An instruction is about to be executed: any breakpoint (including the one which was
+        // just paused on) must break execution the next time it is reached
+        self.current_breakpoint = None;
     }
 
     /// Read and execute user commands, until an [`Action`] is raised.
